@@ -479,6 +479,14 @@ class StmtMixin:
                 raise Unsupported(f"with on {ctx!r}")
             s3 = s2.copy()
             s3.held = s2.held + (ctx.t.s,)
+            # rely: what other threads may have done to the fields this lock protects, up to the acquisition
+            for (owner, fld), spec in self.reg.interference.items():
+                if (owner, fld) not in getattr(self, "active_interference", ()):
+                    continue
+                holder = self.lock_owner(s3, s.items[0].context_expr)
+                if holder is not None and self.field_decl(holder.cls, spec["lock"]) is not None \
+                        and self.field_decl(holder.cls, fld) is not None:
+                    s3 = self.inject_interference(s3, holder, owner, fld, force=True)
             outs = []
             for o in self.ex_block(s3, s.body):
                 so = o.st.copy()
@@ -486,6 +494,14 @@ class StmtMixin:
                 outs.append(Out(o.kind, so, o.val))
             return outs
         return self.ev(st, s.items[0].context_expr, got)
+
+    def lock_owner(self, st, ctx_expr):
+        """the object whose lock attribute is being acquired: `with X.lock` -> value of X"""
+        if isinstance(ctx_expr, ast.Attribute):
+            outs = self.ev(st, ctx_expr.value, lambda s2, v: [Out("ok", s2, v)])
+            if outs and isinstance(outs[0].val, VRef):
+                return outs[0].val
+        return None
 
     def handler_classes(self, st, h: ast.ExceptHandler):
         if h.type is None:
